@@ -85,8 +85,12 @@ class Ctx:
     def count(self, name, n=1):
         self.counts[name] = self.counts.get(name, 0) + n
 
-    def floor(self, name, measured, floor):
-        """A rule must match at least `floor` instances or the analysis is broken."""
+    def floor(self, name, measured, baseline):
+        """A rule must keep matching instances or the analysis is broken. `baseline` is the count
+        confirmed on the reference tree; ordinary maintenance (merging duplicated blocks into a helper,
+        rolling up unrolled code) legitimately lowers it, so the floor is half the baseline: enough to
+        catch a rule that stopped matching, not so tight that a clean-up trips it."""
+        floor = max(1, (baseline + 1) // 2)
         self.floors.append((name, measured, floor))
         if measured < floor:
             self.broken.append("instance floor: %s matched %d < %d" % (name, measured, floor))
